@@ -33,6 +33,7 @@ import ast
 
 from ..astutil import attr_chain, callee_name, calls, is_name, names_in, text, unwrap_await
 from ..callgraph import CallGraph, sccs
+from .. import symb
 from ..core import Result
 from ..flow import MustFlow, join
 from ..model import AnchorMissing, FuncInfo, Repo, fold_str, fold_str_set, walk_no_nested
@@ -555,40 +556,60 @@ def run(repo: Repo) -> Result:
                         res.add("C09-GUARDS", g.qual, "pos-rewind", f"{g.qual} writes the stream position: a rewind breaks the progress argument", g.file, n.lineno)
 
     # ---- C09-GUARDS ------------------------------------------------------------------
-    pb = repo.own_method("liquid.parser.Parser", "parse_block")
+    # each depth guard is read through its path condition on the normalised function (private
+    # helpers inlined, `depth = self._copy_depth`-style aliases propagated; sa/normalize.py,
+    # sa/guards.py): "<ErrorClass> is raised exactly when <measure> > <limit>", and the guarded
+    # action (parsing a node / pushing a scope / constructing the child context) is only reached
+    # after it.
+    from ..guards import canon as _canon
+    from ..guards import conditions as _conditions
+    from ..guards import exits as _exits
+    from ..normalize import nfunc as _nfunc
+
+    def depth_guard(fn, exc: str, measure: str, limit: str, what: str, guarded_pred) -> None:
+        rs = [e for e in _exits(fn.node) if e.kind == "raise" and e.raised() == exc]
+        want = _canon(ast.parse(f"{measure} > {limit}", mode="eval").body)
+        ok = len(rs) == 1 and rs[0].canon == [want]
+        if not ok:
+            res.add("C09-GUARDS", fn.qual, what, f"{fn.qual} must raise {exc} exactly when `{measure} > {limit}` (found {[r.canon for r in rs]})", fn.file, fn.line)
+            return
+        # the guarded action runs only where the guard's negation holds
+        neg = _canon(ast.parse(f"{measure} <= {limit}", mode="eval").body)
+        hit = False
+        for st, cs in _conditions(fn.node):
+            if guarded_pred(st):
+                hit = True
+                if neg not in [_canon(c) for c in cs]:
+                    res.add("C09-GUARDS", fn.qual, f"{what}:order", f"{fn.qual}: `{text(st)[:60]}` can run before the {exc} check", fn.file, st.lineno)
+        if not hit:
+            res.add("C09-GUARDS", fn.qual, f"{what}:guarded-action", f"{fn.qual}: the action guarded by the {exc} check was not found", fn.file, fn.line)
+
+    pb = _nfunc(repo, repo.own_method("liquid.parser.Parser", "parse_block"), keep=("_parse",))
     res.ob(pb.qual, 3)
     body = [s for s in pb.node.body if not (isinstance(s, ast.Expr) and isinstance(s.value, ast.Constant))]
-    idx_inc = next((i for i, s in enumerate(body) if text(s) == "stream.block_depth += 1"), None)
-    idx_chk = next((i for i, s in enumerate(body) if isinstance(s, ast.If) and text(s.test) == "stream.block_depth > self.env.block_nesting_limit" and isinstance(s.body[0], ast.Raise) and "BlockNestingError" in text(s.body[0])), None)
+    idx_inc = next((i for i, s in enumerate(body) if text(s) in ("stream.block_depth += 1", "stream.block_depth = stream.block_depth + 1")), None)
     idx_loop = next((i for i, s in enumerate(body) if isinstance(s, ast.While)), None)
-    if idx_inc is None or idx_chk is None or idx_loop is None or not (idx_inc < idx_chk < idx_loop):
+    depth_guard(pb, "BlockNestingError", "stream.block_depth", "self.env.block_nesting_limit", "block-depth", lambda st: isinstance(st, ast.While))
+    if idx_inc is None or idx_loop is None or not idx_inc < idx_loop or any(isinstance(s, ast.If) and "BlockNestingError" in text(s) for s in body[: idx_inc or 0]):
         res.add("C09-GUARDS", pb.qual, "block-depth", "parse_block must increment stream.block_depth and raise BlockNestingError when it exceeds block_nesting_limit before parsing any node", pb.file, pb.line)
-    if "stream.block_depth -= 1" not in text(pb.node):
+    if not any(text(n) in ("stream.block_depth -= 1", "stream.block_depth = stream.block_depth - 1") for n in ast.walk(pb.node) if isinstance(n, ast.stmt)):
         res.add("C09-GUARDS", pb.qual, "block-depth-dec", "parse_block must decrement stream.block_depth when it returns", pb.file, pb.line)
     lt = repo.own_method("liquid.builtin.tags.liquid_tag.LiquidTag", "parse")
     res.ob(lt.qual)
-    if "block_depth_carry=stream.block_depth" not in text(lt.node):
+    if not any(isinstance(c, ast.Call) and callee_name(c) == "TokenStream" and any(k.arg == "block_depth_carry" and text(k.value) == "stream.block_depth" for k in c.keywords) for c in ast.walk(lt.node)):
         res.add("C09-GUARDS", lt.qual, "carry", "the liquid tag must carry the block depth into its inner token stream (otherwise nesting through liquid tags is unbounded)", lt.file, lt.line)
-    ex = repo.own_method("liquid.context.RenderContext", "extend")
+    ex = _nfunc(repo, repo.own_method("liquid.context.RenderContext", "extend"))
     res.ob(ex.qual, 2)
-    body = [s for s in ex.node.body if not (isinstance(s, ast.Expr) and isinstance(s.value, ast.Constant))]
-    first = body[0] if body else None
-    if not (isinstance(first, ast.If) and text(first.test) == "self.scope.size() > self.env.context_depth_limit" and isinstance(first.body[0], ast.Raise) and "ContextDepthError" in text(first.body[0])):
-        res.add("C09-GUARDS", ex.qual, "depth-check", "RenderContext.extend must start with `if self.scope.size() > self.env.context_depth_limit: raise ContextDepthError`", ex.file, ex.line)
-    push_line = next((c.lineno for c in calls(ex.node) if callee_name(c) == "push"), None)
-    if push_line is None or (isinstance(first, ast.If) and push_line < first.lineno):
-        res.add("C09-GUARDS", ex.qual, "check-before-push", "the depth check must precede scope.push", ex.file, ex.line)
-    cp = repo.own_method("liquid.context.RenderContext", "copy")
+    depth_guard(ex, "ContextDepthError", "self.scope.size()", "self.env.context_depth_limit", "depth-check", lambda st: isinstance(st, ast.Expr) and isinstance(st.value, ast.Call) and callee_name(st.value) == "push")
+    cp = _nfunc(repo, repo.own_method("liquid.context.RenderContext", "copy"))
     res.ob(cp.qual, 2)
-    body = [s for s in cp.node.body if not (isinstance(s, ast.Expr) and isinstance(s.value, ast.Constant))]
-    first = body[0] if body else None
-    if not (isinstance(first, ast.If) and text(first.test) == "self._copy_depth > self.env.context_depth_limit" and isinstance(first.body[0], ast.Raise) and "ContextDepthError" in text(first.body[0])):
-        res.add("C09-GUARDS", cp.qual, "depth-check", "RenderContext.copy must start with `if self._copy_depth > self.env.context_depth_limit: raise ContextDepthError`", cp.file, cp.line)
+    depth_guard(cp, "ContextDepthError", "self._copy_depth", "self.env.context_depth_limit", "depth-check", lambda st: isinstance(st, ast.Assign) and isinstance(st.value, ast.Call) and text(st.value.func) in ("self.__class__", "RenderContext", "type(self)"))
     for c in calls(cp.node):
-        if text(c.func) in ("self.__class__", "RenderContext"):
+        if text(c.func) in ("self.__class__", "RenderContext", "type(self)"):
             res.ob(f"{cp.qual}:ctor-depth")
-            kw = {k.arg: text(k.value) for k in c.keywords}
-            if kw.get("copy_depth") != "self._copy_depth + 1":
+            kw = {k.arg: k.value for k in c.keywords}
+            v = kw.get("copy_depth")
+            if v is None or symb.norm(v) != symb.norm(ast.parse("self._copy_depth + 1", mode="eval").body):
                 res.add("C09-GUARDS", cp.qual, "copy-depth+1", "every context built by copy must get copy_depth=self._copy_depth + 1", cp.file, c.lineno)
     ci = repo.own_method("liquid.context.RenderContext", "__init__")
     res.ob(ci.qual)
